@@ -447,6 +447,8 @@ func (n *ReconcileNode) syncWithAPI(ctx context.Context, node *networkv1beta1.No
 	node.Status.LastSyncOpenAPITime = metav1.Now()
 
 	MetaCtx(ctx).NeedSyncOpenAPI.Store(false)
+	// if the status update fails, the merged result is lost, sync again
+	MetaCtx(ctx).StatusChanged.Store(true)
 	return nil
 }
 
@@ -1366,6 +1368,10 @@ func (n *ReconcileNode) assignIP(ctx context.Context, opt *eniOptions) error {
 				n.vswpool.Block(opt.eniRef.VSwitchID)
 			}
 
+			if len(result) > 0 {
+				// partial result is recorded below, it must not be lost by a failed update
+				MetaCtx(ctx).StatusChanged.Store(true)
+			}
 			MetaCtx(ctx).Mutex.Lock()
 			lo.ForEach(result, func(item aliyunClient.IPSet, index int) {
 				if item.IPName != "" {
@@ -1413,6 +1419,9 @@ func (n *ReconcileNode) assignIP(ctx context.Context, opt *eniOptions) error {
 				n.vswpool.Block(opt.eniRef.VSwitchID)
 			}
 
+			if len(result) > 0 {
+				MetaCtx(ctx).StatusChanged.Store(true)
+			}
 			MetaCtx(ctx).Mutex.Lock()
 			lo.ForEach(result, func(item aliyunClient.IPSet, index int) {
 				if item.IPName != "" {
